@@ -68,6 +68,37 @@ fn elide_spoofable_trailers(kawa: &mut super::GenericHttpStream, correlation_hea
     }
 }
 
+/// RFC 9110 §6.5: HTTP/1.1 only carries trailers with the chunked coding. An
+/// HTTP/2 message that declared a Content-Length and ended with a trailer
+/// HEADERS frame leaves header blocks behind its body; serialised as they are
+/// they would land behind the length-framed body, where the peer reads them as
+/// the start of the next message on the connection. Drop them here, on the
+/// HTTP/1.1 write side only (an HTTP/2 peer can take them), together with the
+/// CRLF that would close the trailer section.
+fn strip_trailers_of_length_framed_message(kawa: &mut super::GenericHttpStream) {
+    if !matches!(kawa.body_size, kawa::BodySize::Length(_)) {
+        return;
+    }
+    // the head is still queued iff its status line is
+    let mut in_head = kawa
+        .blocks
+        .iter()
+        .any(|block| matches!(block, kawa::Block::StatusLine));
+    for block in kawa.blocks.iter_mut() {
+        match block {
+            kawa::Block::Flags(flags) if flags.end_header => {
+                if in_head {
+                    in_head = false;
+                } else {
+                    flags.end_header = false;
+                }
+            }
+            kawa::Block::Header(header) if !in_head => header.elide(),
+            _ => {}
+        }
+    }
+}
+
 /// Prefix applied to every [`ConnectionH1`] log line. Matches the RUSTLS
 /// log-context convention (`MUX-H1\tSession(...)\t >>>`). When the logger is
 /// in colored mode the label is bold bright-white (uniform across every
@@ -567,6 +598,7 @@ impl<Front: SocketHandler> ConnectionH1<Front> {
             let edits = std::mem::take(&mut parts.context.headers_response);
             super::shared::apply_response_header_edits(kawa, &edits);
         }
+        strip_trailers_of_length_framed_message(kawa);
         kawa.prepare(&mut kawa::h1::BlockConverter);
         let mut io_slices = Vec::new();
         for block in kawa.out.iter() {
